@@ -40,6 +40,33 @@ CHECKS = {
             dict(harness="C01_Sources"),
         ],
     },
+    "C19": {
+        "quick": [
+            dict(harness="C19_Option", bounds="all 2^64 Option values"),
+            dict(harness="C19_Measure_F3", cover=["accepted", "rejected"], bounds="accepted inputs among all 3-rune strings over D: Pos/End of every node and comment"),
+            dict(harness="C19_Print_F3", cover=["accepted"], bounds="accepted inputs among all 3-rune strings over D x symbolic Config (5 x 64-bit Style, Case, Width 0..8)"),
+            dict(harness="C19_Expand_F2", cover=["accepted"], bounds="accepted inputs among all 2-rune strings over D x all 2^64 ExpMode x all 2^64 Option values, Args={sh,p1,''}"),
+            dict(harness="C19_Measure_T1", cover=["accepted"], bounds="43 templates x one symbolic hole"),
+            dict(harness="C19_Eval_F2", cover=["error", "value"], bounds="Eval of all 2-rune strings over D"),
+            dict(harness="C19_Match_22", bounds="patterns of 2 symbols over {a b * ? [ ] ! ^ - \\ . newline} x subjects of 2 over {a b - ] . newline} x all Mode values"),
+            dict(harness="C19_Glob_3", bounds="Glob of all 3-symbol patterns over {a * ? [ ] \\ / .} on an empty file system"),
+        ],
+        "thorough": [
+            dict(harness="C19_Option"),
+            dict(harness="C19_Measure_F3", cover=["accepted", "rejected"]),
+            dict(harness="C19_Measure_F4", cover=["accepted", "rejected"], bounds="all 4-rune ASCII strings"),
+            dict(harness="C19_Print_F3", cover=["accepted"]),
+            dict(harness="C19_Expand_F2", cover=["accepted"]),
+            dict(harness="C19_Expand_F3", cover=["accepted"], bounds="all 3-rune ASCII strings x all ExpMode/Option bit patterns"),
+            dict(harness="C19_Expand_T0", cover=["accepted"], bounds="43 concrete templates x all ExpMode/Option bit patterns"),
+            dict(harness="C19_Expand_T1", cover=["accepted"], bounds="43 templates x one symbolic hole x 6 documented modes x NoGlob|NoUnset on/off"),
+            dict(harness="C19_Measure_T1", cover=["accepted"]),
+            dict(harness="C19_Print_T1", cover=["accepted"], bounds="43 templates x one symbolic hole x symbolic Config"),
+            dict(harness="C19_Eval_F3", cover=["error", "value"], bounds="Eval of all 3-rune strings over D"),
+            dict(harness="C19_Match_32", bounds="patterns of 3 symbols x subjects of 2 x all Mode values"),
+            dict(harness="C19_Glob_3"),
+        ],
+    },
 }
 
 BOUNDED = ("holds for every input inside the stated bounds (the solver decides each data-dependent branch and assertion for all values; "
@@ -49,6 +76,8 @@ META = {
     "C01": dict(text="Totality of ParseCommands within bounds: every feasible path of the real lexer/parser SSA over N free runes (N<=3 quick, 4 thorough), "
                      "over every template with symbolic holes, with symbolic alias tables, under panicnil 0 and 1, ends without caller panic, background-goroutine death, deadlock or budget overrun. " + BOUNDED,
                 note="inputs longer than the bounds, code points outside D and the std decoders behind string/[]byte/io.Reader sources (smoke-tested concretely) are outside the claim; goroutines run under the deterministic baton schedule plus a drain phase after return"),
+    "C19": dict(text="No panic / non-termination of Pos, End, Fprint (symbolic Config), Expand (symbolic ExpMode and Option), Eval, Match, Glob and Option.String on every feasible path within the bounds; errors are of the documented kinds. " + BOUNDED,
+                note="ASTs come from the parser on bounded inputs (hand-built ASTs are outside); Glob runs against the engine's empty file-system stub; regexp.Compile/regexp matching run natively on concretised patterns/subjects; user.Lookup is a stub that always fails"),
 }
 
 NOT_APPLICABLE = {
